@@ -1,9 +1,273 @@
-/* C12: requests travel downstream, answers travel back (stub, filled below) */
-#include "epipe.h"
-struct tprobe;
-void req_reset(void) {}
-void req_teardown(void) {}
-bool req_check_quiescent(const char *when) { (void)when; return true; }
-void req_do_op(const struct sim_op *op) { (void)op; }
-void req_probe_provide(struct tprobe *p, struct upipe *upipe, struct urequest *urequest) { (void)p; (void)upipe; (void)urequest; }
-void gen_req(struct sim_rng *r, struct sim_plan *p) { (void)r; (void)p; }
+/*
+ * C12 (in-thread part): requests travel downstream, answers travel back,
+ * surviving re-plumbing. Included by epipe.c (same translation unit).
+ *
+ * The application registers requests (sink latency, flow format) on the head
+ * pipe of a chain. Providers: the mock sink at the tail (lodges the request,
+ * answers when the plan says so, possibly several times) or, when a pipe has
+ * no output, the probe of that pipe (answers at once or not at all, like the
+ * uprobe_* providers do). Oracle, evaluated after every operation: each
+ * registered request is lodged exactly once at the sink the chain currently
+ * leads to and nowhere else; an answer given to a lodged proxy reaches the
+ * original callback once, with the value given; no callback after unregister.
+ */
+
+#define NREQ 4
+struct hreq {
+    struct urequest ureq;
+    bool inited, registered;
+    int type;
+    int ncb;
+    uint64_t last_value;
+    bool last_was_uref;
+};
+static struct hreq hreqs[NREQ];
+static bool probe_answers;      /* probe providers answer immediately */
+static int req_in_register = -1;
+
+static int hreq_provide(struct urequest *ur, va_list args)
+{
+    struct hreq *r = container_of(ur, struct hreq, ureq);
+    int k = (int)(r - hreqs);
+    sim_ev("request_answer", (uint64_t)k, 0);
+    if (!r->registered) {
+        sim_violation(V_REQ_AFTER_UNREGISTER, "callback of request %d invoked although it is not registered", k);
+        if (r->type == UREQUEST_FLOW_FORMAT) {
+            struct uref *u = va_arg(args, struct uref *);
+            uref_free(u);
+        }
+        return UBASE_ERR_NONE;
+    }
+    r->ncb++;
+    if (r->type == UREQUEST_SINK_LATENCY) {
+        r->last_value = va_arg(args, uint64_t);
+        r->last_was_uref = false;
+    } else {
+        struct uref *u = va_arg(args, struct uref *);
+        r->last_value = 0;
+        if (u != NULL)
+            uref_attr_get_unsigned(u, &r->last_value, UDICT_TYPE_UNSIGNED, "x.ans");
+        r->last_was_uref = true;
+        uref_free(u);           /* the answer belongs to the requester */
+    }
+    return UBASE_ERR_NONE;
+}
+
+void req_reset(void)
+{
+    memset(hreqs, 0, sizeof(hreqs));
+    req_in_register = -1;
+}
+
+/* follows the chain of proxies up to the application's request */
+static int req_root(struct urequest *u)
+{
+    for (int depth = 0; depth < 12 && u != NULL; depth++) {
+        for (int k = 0; k < NREQ; k++)
+            if (u == &hreqs[k].ureq)
+                return k;
+        u = urequest_get_opaque(u, struct urequest *);
+    }
+    return -1;
+}
+
+/* where the chain starting at the head currently ends */
+static int req_terminal(void)
+{
+    int node = 0;
+    for (int guard = 0; guard < MAXP + 1; guard++) {
+        if (node >= 100 || node < 0)
+            return node;
+        if (!pipes[node].exists || pipes[node].probe.ndead)
+            return -1;
+        node = pipes[node].out;
+    }
+    return -1;
+}
+
+static void answer(struct urequest *proxy, int type, uint64_t value)
+{
+    if (type == UREQUEST_SINK_LATENCY)
+        urequest_provide_sink_latency(proxy, value);
+    else {
+        struct uref *u = uref_alloc(uref_mgr);
+        if (u == NULL)
+            return;
+        uref_flow_set_def(u, "block.ans.");
+        uref_attr_set_unsigned(u, value, UDICT_TYPE_UNSIGNED, "x.ans");
+        urequest_provide_flow_format(proxy, u);
+    }
+}
+
+void req_probe_provide(struct tprobe *p, struct upipe *upipe, struct urequest *urequest)
+{
+    (void)upipe;
+    int k = req_root(urequest);
+    sim_ev("provide_request_at_probe", (uint64_t)p->id, (uint64_t)(int64_t)k);
+    if (k < 0)
+        return;                 /* not one of ours (a pipe's own request) */
+    SIM_PROBE("req_reached_probe_of_last_pipe");
+    if (!probe_answers)
+        return;
+    int before = hreqs[k].ncb;
+    uint64_t value = 7000 + (uint64_t)p->id;
+    answer(urequest, hreqs[k].type, value);
+    if (hreqs[k].registered && (hreqs[k].ncb != before + 1 || hreqs[k].last_value != value))
+        sim_violation(V_REQ_ANSWER, "answer given by the probe of node %d did not reach request %d "
+                      "(callbacks %d -> %d, value %" PRIu64 ")", p->id, k, before, hreqs[k].ncb,
+                      hreqs[k].last_value);
+}
+
+bool req_check_quiescent(const char *when)
+{
+    if (stop_checking || !usable(0))
+        return true;
+    int terminal = req_terminal();
+    for (int j = 0; j < nsinks; j++) {
+        struct msink *s = &sinks[j];
+        int count[NREQ] = { 0 };
+        for (int i = 0; i < s->nlodged; i++) {
+            int k = req_root(s->lodged[i]);
+            if (k < 0) {
+                sim_violation(V_REQ_ROUTING, "after %s: sink %d holds a request that does not lead back to the "
+                              "application", when, j);
+                return false;
+            }
+            count[k]++;
+        }
+        for (int k = 0; k < NREQ; k++) {
+            int want = hreqs[k].registered && terminal == 100 + j ? 1 : 0;
+            if (count[k] != want) {
+                sim_violation(V_REQ_ROUTING, "after %s: request %d is lodged %d time(s) at sink %d, expected %d "
+                              "(registered=%d, the chain ends at node %d)", when, k, count[k], j, want,
+                              hreqs[k].registered, terminal);
+                return false;
+            }
+        }
+    }
+    return true;
+}
+
+void req_do_op(const struct sim_op *op)
+{
+    if (!usable(0))
+        return;
+    int k = (int)((uint64_t)op->a[0] % NREQ);
+    struct hreq *r = &hreqs[k];
+    switch (op->code) {
+    case OP_REQ_REGISTER: {
+        if (r->registered)
+            return;
+        r->type = (uint64_t)op->a[1] & 1 ? UREQUEST_FLOW_FORMAT : UREQUEST_SINK_LATENCY;
+        struct uref *ff = NULL;
+        if (r->type == UREQUEST_FLOW_FORMAT) {
+            ff = uref_alloc(uref_mgr);
+            if (ff == NULL)
+                return;
+            uref_flow_set_def(ff, "block.want.");
+        }
+        urequest_init(&r->ureq, r->type, ff, hreq_provide, NULL);
+        r->inited = true;
+        r->registered = true;
+        r->ncb = 0;
+        probe_answers = ((uint64_t)op->a[2] & 1) != 0;
+        int ret = upipe_register_request(pipes[0].upipe, &r->ureq);
+        SIM_PROBE("req_registered");
+        if (!ubase_check(ret) && ret != UBASE_ERR_UNHANDLED)
+            sim_violation(V_CONTROL, "register_request on %s failed (%d)", type_name(pipes[0].type), ret);
+        break;
+    }
+    case OP_REQ_UNREGISTER: {
+        if (!r->registered)
+            return;
+        /* from the moment the application asks, no callback is acceptable */
+        r->registered = false;
+        /* upipe_unregister_request() wants the flag as the pipes left it */
+        int ret = upipe_control(pipes[0].upipe, UPIPE_UNREGISTER_REQUEST, &r->ureq);
+        r->ureq.registered = false;
+        SIM_PROBE("req_unregistered");
+        if (!ubase_check(ret) && ret != UBASE_ERR_UNHANDLED)
+            sim_violation(V_CONTROL, "unregister_request on %s failed (%d)", type_name(pipes[0].type), ret);
+        uref_free(r->ureq.uref);
+        r->ureq.uref = NULL;
+        break;
+    }
+    case OP_REQ_PROVIDE: {
+        if (nsinks == 0)
+            return;
+        struct msink *s = &sinks[(uint64_t)op->a[0] % (uint64_t)nsinks];
+        if (s->nlodged == 0)
+            return;
+        struct urequest *proxy = s->lodged[(uint64_t)op->a[1] % (uint64_t)s->nlodged];
+        int root = req_root(proxy);
+        if (root < 0)
+            return;
+        int repeat = 1 + (int)((uint64_t)op->a[3] % 2);
+        for (int i = 0; i < repeat && !sim_violation_class(); i++) {
+            int before = hreqs[root].ncb;
+            uint64_t value = 100 + (uint64_t)op->a[2] % 1000 + (uint64_t)i;
+            answer(proxy, hreqs[root].type, value);
+            SIM_PROBE("req_answered_by_sink");
+            if (hreqs[root].ncb != before + 1 || hreqs[root].last_value != value)
+                sim_violation(V_REQ_ANSWER, "answer %" PRIu64 " given at sink %d did not reach request %d "
+                              "(callbacks %d -> %d, value seen %" PRIu64 ")", value, s->id, root, before,
+                              hreqs[root].ncb, hreqs[root].last_value);
+        }
+        break;
+    }
+    }
+}
+
+void req_pre_teardown(bool unregister_first)
+{
+    for (int k = 0; k < NREQ; k++) {
+        struct hreq *r = &hreqs[k];
+        if (!r->registered)
+            continue;
+        if (unregister_first && usable(0)) {
+            r->registered = false;
+            upipe_control(pipes[0].upipe, UPIPE_UNREGISTER_REQUEST, &r->ureq);
+            r->ureq.registered = false;
+        } else {
+            /* the application walks away: the chain is about to be released
+             * with the request still registered; nothing may call back */
+            r->registered = false;
+            SIM_PROBE("req_chain_released_with_request_registered");
+        }
+    }
+}
+
+void req_teardown(void)
+{
+    for (int k = 0; k < NREQ; k++)
+        if (hreqs[k].inited) {
+            uref_free(hreqs[k].ureq.uref);
+            hreqs[k].ureq.uref = NULL;
+        }
+}
+
+void gen_req(struct sim_rng *r, struct sim_plan *p)
+{
+    p->cfg[CFG_PROP] = P_C12;
+    p->cfg[CFG_TOPO] = sim_rng_chance(r, 5, 6) ? TOPO_CHAIN : TOPO_DUP;
+    p->cfg[CFG_NPIPES] = 1 + sim_rng_below(r, 4);
+    for (int i = 0; i < 4; i++)
+        p->cfg[CFG_TYPES + i] = sim_rng_below(r, T__CHAIN_N);
+    p->cfg[CFG_UREF_POOL] = sim_rng_below(r, 5);
+    p->cfg[CFG_UDICT_POOL] = sim_rng_below(r, 5);
+    p->cfg[CFG_UBUF_POOL] = sim_rng_below(r, 5);
+    p->cfg[CFG_TEARDOWN] = sim_rng_below(r, 4);
+    p->cfg[CFG_NSUBS] = sim_rng_below(r, 3);
+    int n = 5 + (int)sim_rng_below(r, 26);
+    for (int i = 0; i < n; i++) {
+        uint32_t c = sim_rng_below(r, 100);
+        int pp = (int)sim_rng_below(r, MAXP);
+        if (c < 26) sim_plan_add(p, 0, OP_REQ_REGISTER, sim_rng_below(r, NREQ), sim_rng_below(r, 2), sim_rng_below(r, 2), 0, 0, 0);
+        else if (c < 40) sim_plan_add(p, 0, OP_REQ_UNREGISTER, sim_rng_below(r, NREQ), 0, 0, 0, 0, 0);
+        else if (c < 58) sim_plan_add(p, 0, OP_REQ_PROVIDE, sim_rng_below(r, MAXS), sim_rng_below(r, 8), sim_rng_below(r, 1000), sim_rng_below(r, 2), 0, 0);
+        else if (c < 84) sim_plan_add(p, 0, OP_SET_OUTPUT, pp, sim_rng_below(r, 4), 0, 0, 0, 0);
+        else if (c < 89) sim_plan_add(p, 0, OP_RELEASE, pp, 0, 0, 0, 0, 0);
+        else if (c < 94) sim_plan_add(p, 0, OP_SET_FLOW_DEF, sim_rng_below(r, 2), sim_rng_below(r, 3), 0, 0, 0, 0);
+        else sim_plan_add(p, 0, OP_INPUT, sim_rng_below(r, 3), sim_rng_below(r, 10), 0, 0, 0, 0);
+    }
+}
